@@ -441,8 +441,8 @@ func (s *sim) newTx(o txOpts) *txDef {
 		d.outs = append(d.outs, outDef{value: 0, kind: 'p'})
 	}
 	switch o.special {
-	case "nonstdout":
-		d.outs[0].kind = 't'
+	case "nonstdout": // the non-standard output at any position
+		d.outs[s.r.Intn(len(d.outs))].kind = 't'
 	case "nulldata":
 		d.outs = append(d.outs, outDef{kind: 'n', pad: 20})
 	case "nulldata2":
@@ -559,8 +559,11 @@ func (s *sim) newTx(o txOpts) *txDef {
 				d.outs[i].value = rest / int64(nPay)
 			}
 		}
-		if o.special == "dust" && nPay > 1 {
-			d.outs[0].value, d.outs[nPay-1].value = 1, d.outs[nPay-1].value+d.outs[0].value-1
+		if o.special == "dust" && nPay > 1 { // the dust output at the first, a middle or the last position
+			a := s.r.Intn(nPay)
+			b2 := (a + 1) % nPay
+			d.outs[b2].value += d.outs[a].value - 1
+			d.outs[a].value = 1
 		}
 	} else {
 		for i := range d.outs {
